@@ -341,7 +341,14 @@ type Guard struct {
 	Arm bool
 }
 
+// EdgePrune reports edges (block, successor index) that are infeasible under a calling context.
+type EdgePrune func(b *ssa.BasicBlock, succ int) bool
+
 func reachableWithoutEdge(fn *ssa.Function, target *ssa.BasicBlock, cutFrom *ssa.BasicBlock, cutSucc int) bool {
+	return reachableWithoutEdgeP(fn, target, cutFrom, cutSucc, nil)
+}
+
+func reachableWithoutEdgeP(fn *ssa.Function, target *ssa.BasicBlock, cutFrom *ssa.BasicBlock, cutSucc int, prune EdgePrune) bool {
 	seen := make([]bool, len(fn.Blocks))
 	stack := []*ssa.BasicBlock{fn.Blocks[0]}
 	seen[0] = true
@@ -355,6 +362,9 @@ func reachableWithoutEdge(fn *ssa.Function, target *ssa.BasicBlock, cutFrom *ssa
 			if b == cutFrom && k == cutSucc {
 				continue
 			}
+			if prune != nil && prune(b, k) {
+				continue
+			}
 			if !seen[s.Index] {
 				seen[s.Index] = true
 				stack = append(stack, s)
@@ -365,7 +375,10 @@ func reachableWithoutEdge(fn *ssa.Function, target *ssa.BasicBlock, cutFrom *ssa
 }
 
 // GuardsOf returns all mandatory branch outcomes for reaching instr.
-func GuardsOf(instr ssa.Instruction) []Guard {
+func GuardsOf(instr ssa.Instruction) []Guard { return GuardsOfP(instr, nil) }
+
+// GuardsOfP: as GuardsOf, on the CFG without the edges that prune declares infeasible.
+func GuardsOfP(instr ssa.Instruction, prune EdgePrune) []Guard {
 	fn := instr.Parent()
 	tb := instr.Block()
 	var out []Guard
@@ -377,12 +390,12 @@ func GuardsOf(instr ssa.Instruction) []Guard {
 		if !ok || len(b.Succs) != 2 || b.Succs[0] == b.Succs[1] {
 			continue
 		}
-		if b == tb || !b.Dominates(tb) {
+		if b == tb || (prune == nil && !b.Dominates(tb)) {
 			continue
 		}
 		// if removing the else-edge makes tb unreachable => the else arm is mandatory; etc.
-		thenNeeded := !reachableWithoutEdge(fn, tb, b, 0)
-		elseNeeded := !reachableWithoutEdge(fn, tb, b, 1)
+		thenNeeded := !reachableWithoutEdgeP(fn, tb, b, 0, prune)
+		elseNeeded := !reachableWithoutEdgeP(fn, tb, b, 1, prune)
 		if thenNeeded && !elseNeeded {
 			out = append(out, Guard{iff, true})
 		} else if elseNeeded && !thenNeeded {
@@ -462,6 +475,48 @@ func factOf2(v ssa.Value, val bool, iff *ssa.If) Fact {
 	f := factOf(g)
 	f.If = iff
 	return f
+}
+
+// FactsAtP: facts under an edge pruning.
+func FactsAtP(instr ssa.Instruction, prune EdgePrune) []Fact {
+	var out []Fact
+	for _, g := range GuardsOfP(instr, prune) {
+		out = append(out, factOf(g))
+	}
+	return out
+}
+
+// nilnessPrune builds an EdgePrune from a decision procedure for "value is nil?" (known, isNil).
+func nilnessPrune(isNil func(v ssa.Value) (known bool, nilv bool)) EdgePrune {
+	return func(b *ssa.BasicBlock, succ int) bool {
+		if len(b.Instrs) == 0 {
+			return false
+		}
+		iff, ok := b.Instrs[len(b.Instrs)-1].(*ssa.If)
+		if !ok {
+			return false
+		}
+		f := factOf(Guard{iff, succ == 0})
+		if f.Op != token.EQL && f.Op != token.NEQ {
+			return false
+		}
+		x, y := f.X, f.Y
+		if isNilConst(x) {
+			x, y = y, x
+		}
+		if !isNilConst(y) {
+			return false
+		}
+		known, nv := isNil(x)
+		if !known {
+			return false
+		}
+		// the fact claims x == nil (EQL) or x != nil (NEQ) on this edge; the edge is dead if that contradicts
+		if f.Op == token.EQL {
+			return !nv
+		}
+		return nv
+	}
 }
 
 // FactsAt returns the facts that hold whenever instr executes.
@@ -907,4 +962,103 @@ func noFieldStoreBetween(la, lb *ssa.UnOp, f *types.Var) bool {
 		}
 	}
 	return true
+}
+
+// retResult returns the i-th result of a return, looking through the result
+// spill that go/ssa introduces in functions with defers
+// (`*r = v; rundefers; t = *r; return t`).
+func retResult(r *ssa.Return, i int) ssa.Value {
+	v := r.Results[i]
+	ld, ok := v.(*ssa.UnOp)
+	if !ok || ld.Op != token.MUL {
+		return v
+	}
+	a, ok := ld.X.(*ssa.Alloc)
+	if !ok {
+		return v
+	}
+	instrs := r.Block().Instrs
+	for k := len(instrs) - 1; k >= 0; k-- {
+		if st, ok := instrs[k].(*ssa.Store); ok && st.Addr == ssa.Value(a) {
+			return st.Val
+		}
+	}
+	// stored in a dominating block: unique store reaching here
+	var only ssa.Value
+	n := 0
+	if refs := a.Referrers(); refs != nil {
+		for _, q := range *refs {
+			if st, ok := q.(*ssa.Store); ok && st.Addr == ssa.Value(a) && instrDominates(st, r) {
+				only = st.Val
+				n++
+			}
+		}
+	}
+	if n == 1 {
+		return only
+	}
+	return v
+}
+
+func retResults(r *ssa.Return) []ssa.Value {
+	out := make([]ssa.Value, len(r.Results))
+	for i := range r.Results {
+		out[i] = retResult(r, i)
+	}
+	return out
+}
+
+// chainTo follows a chain of single-input transformations (conversions, calls
+// with one non-constant input, extracts) from v towards a value satisfying
+// pred. A φ or a multi-input operation breaks the chain: the value is then not
+// a function of that source alone.
+func chainTo(v ssa.Value, pred func(ssa.Value) bool) bool {
+	for i := 0; i < 12; i++ {
+		if pred(v) {
+			return true
+		}
+		switch x := v.(type) {
+		case *ssa.Convert:
+			v = x.X
+		case *ssa.ChangeType:
+			v = x.X
+		case *ssa.MakeInterface:
+			v = x.X
+		case *ssa.Extract:
+			v = x.Tuple
+		case *ssa.UnOp:
+			if x.Op != token.MUL {
+				v = x.X
+				continue
+			}
+			fa, ok := x.X.(*ssa.FieldAddr)
+			if !ok {
+				return false
+			}
+			v = fa.X
+		case *ssa.Field:
+			v = x.X
+		case *ssa.Call:
+			var in ssa.Value
+			n := 0
+			ops := x.Call.Args
+			if x.Call.IsInvoke() {
+				ops = append([]ssa.Value{x.Call.Value}, ops...)
+			}
+			for _, a := range ops {
+				if _, isK := a.(*ssa.Const); isK {
+					continue
+				}
+				in = a
+				n++
+			}
+			if n != 1 {
+				return false
+			}
+			v = in
+		default:
+			return false
+		}
+	}
+	return false
 }
